@@ -45,6 +45,11 @@ pub fn exhaustive() -> Vec<String> {
                 out.push(format!("srvk {proto} {kind} ; pre:{f}"));
                 out.push(format!("srvk {proto} {kind} ; {f}"));
             }
+            // a burst: twenty clients that connect and go away, all of them ready when the server first looks (or one after the other)
+            if kind != "tcptls" && kind != "duptls" && kind != "backlogtls" {
+                out.push(format!("srvk {proto} {kind} ; {}", vec!["pre:close"; 20].join(" ; ")));
+                out.push(format!("srvk {proto} {kind} ; {}", vec!["close"; 20].join(" ; ")));
+            }
         }
     }
     out
